@@ -50,6 +50,10 @@ impl Script<'_> {
     fn next(&mut self, len: usize, avail: usize, is_write: bool) -> Resp {
         if self.terminal.is_some() {
             self.calls_after_terminal += 1;
+            if self.calls_after_terminal > 5000 {
+                // a helper that keeps calling a reader/writer that keeps failing never returns
+                panic!("the helper called the reader/writer 5000 times after its terminal error");
+            }
             let r = Resp::Err(self.terminal.unwrap());
             self.log.push((len, r));
             return r;
